@@ -103,8 +103,6 @@ pub fn wset_union<T: Clone + Eq + Hash>(a: &HashSet<T>, b: &HashSet<T>) -> (r: H
 { a.union(b).cloned().collect() }
 
 //@ extract fn src/algorithms/components/weak_connectivity.rs plain_bfs props=C10,C20
-//@ head
-#[verifier::exec_allows_no_decreases_clause]
 //@ rewrite
 -> Vec<T>
 //@ with
@@ -121,6 +119,7 @@ let mut nextlevel: HashSet<T> = HashSet::new();
 for v in thislevel
 //@ with
 let ghost tlset = thislevel@;
+        let ghost dls = dl;
         let tlv = wset_into_vec(thislevel);
         let ghost tl = tlv@;
         proof {
@@ -160,13 +159,15 @@ wset_union(&nextlevel,
     requires
         graph.wf_nodes(),
         graph.knows(*source),
+        // bounds the search (u_coh: lemma_wsteps_known, from the coherence of the name-keyed adjacency maps)
+        wsteps_known(*graph),
     ensures
         r@.contains(*source),
         // [C10.plain_bfs.lists_exactly_the_weakly_reachable_nodes]
         wbfs_rel(*graph, *source, r@),
 //@ loop 1
         invariant
-            graph.wf_nodes(),
+            graph.wf_nodes(), wsteps_known(*graph), graph.knows(*source),
             gsucc@ == graph.successors@, gpred@ == graph.predecessors@, empty_hs@ =~= Set::<T>::empty(),
             forall|x: T| #![trigger seen@.contains(x)] #![trigger connected_nodes@.contains(x)] seen@.contains(x) <==> connected_nodes@.contains(x),
             wprefix(*graph, *source, connected_nodes@),
@@ -174,11 +175,17 @@ wset_union(&nextlevel,
             forall|x: T| #[trigger] nextlevel@.contains(x) ==> wjustified(*graph, *source, connected_nodes@, x),
             // [C10.plain_bfs.nothing_reachable_is_dropped]
             forall|a: T, x: T| connected_nodes@.contains(a) && #[trigger] wsteps(*graph, a, x) ==> connected_nodes@.contains(x) || nextlevel@.contains(x),
+            dl.no_duplicates(), forall|x: T| #[trigger] dl.contains(x) <==> seen@.contains(x), forall|x: T| #[trigger] dl.contains(x) ==> graph.knows(x),
+            dl.len() <= graph.n(),
+        // [C20.plain_bfs.terminates] a round marks a new node as seen (there are at most n) or leaves the next level empty
+        decreases graph.n() - dl.len(), nextlevel@.len(),
 //@ loop 2
             invariant
-                graph.wf_nodes(),
+                graph.wf_nodes(), wsteps_known(*graph), graph.knows(*source),
                 gsucc@ == graph.successors@, gpred@ == graph.predecessors@, empty_hs@ =~= Set::<T>::empty(),
                 tl == tlv@ && tl.no_duplicates(),
+                dl.no_duplicates(), forall|x: T| #[trigger] dl.contains(x) <==> seen@.contains(x), forall|x: T| #[trigger] dl.contains(x) ==> graph.knows(x),
+                dl.len() >= dls.len(), dl.len() == dls.len() ==> nextlevel@.len() == 0,
                 forall|x: T| #![trigger seen@.contains(x)] #![trigger connected_nodes@.contains(x)] seen@.contains(x) <==> connected_nodes@.contains(x),
                 wprefix(*graph, *source, connected_nodes@),
                 forall|k: int| itv.index@ <= k < tl.len() ==> wjustified(*graph, *source, connected_nodes@, #[trigger] tl[k]),
@@ -186,6 +193,27 @@ wset_union(&nextlevel,
                 forall|x: T| #[trigger] nextlevel@.contains(x) ==> wjustified(*graph, *source, connected_nodes@, x),
                 forall|a: T, x: T| connected_nodes@.contains(a) && #[trigger] wsteps(*graph, a, x) ==>
                     connected_nodes@.contains(x) || nextlevel@.contains(x) || exists|k: int| itv.index@ <= k < tl.len() && #[trigger] tl[k] == x,
+//@ before while nextlevel.len() > 0
+    let ghost mut dl: Seq<T> = Seq::empty();
+//@ bodyend 1
+        proof { lemma_distinct_known_len(*graph, dl); }
+//@ after seen.insert(v.clone());
+                proof {
+                    let ghost d0 = dl;
+                    dl = dl.push(vname);
+                    assert forall|x: T| #[trigger] dl.contains(x) <==> (d0.contains(x) || x == vname) by {
+                        if d0.contains(x) { let j = choose|j: int| 0 <= j < d0.len() && d0[j] == x; assert(dl[j] == x); }
+                        if x == vname { assert(dl[d0.len() as int] == x); }
+                        if dl.contains(x) { let j = choose|j: int| 0 <= j < dl.len() && dl[j] == x; if j < d0.len() { assert(d0[j] == x); } }
+                    }
+                    assert(dl.no_duplicates()) by {
+                        assert forall|i: int, j: int| 0 <= i < dl.len() && 0 <= j < dl.len() && i != j implies dl[i] != dl[j] by {
+                            if i < d0.len() && j < d0.len() { assert(d0[i] != d0[j]); }
+                            else if i < d0.len() { assert(d0.contains(d0[i])); }
+                            else if j < d0.len() { assert(d0.contains(d0[j])); }
+                        }
+                    }
+                }
 //@ before if !seen.contains(&v) {
             let ghost vname = v;
             let ghost rv0 = connected_nodes@;
